@@ -57,6 +57,15 @@ func WithObjectHeaderBinary(b []byte) Option {
 	}
 }
 
+// WithRequestXHeaders sets the request whose X-headers must be visible to the
+// request header filters when the checked message has none of its own (see
+// [WithObjectHeaderBinary]).
+func WithRequestXHeaders(v Request) Option {
+	return func(c *cfg) {
+		c.xHdrReq = v
+	}
+}
+
 func WithCID(v cid.ID) Option {
 	return func(c *cfg) {
 		c.cnr = v
